@@ -46,7 +46,7 @@ def run(ctx):
     if ctx.tier == "thorough":
         corrupt_probe(ctx, obs)
 
-    by_id = {o["id"]: o for o in obs}
+    by_id = {o["id"]: dict(o, src=o["cs"]["text"], out={k: v.get("k") for k, v in o.items() if isinstance(v, dict) and "k" in v}) for o in obs}
     keys = set()
     evaluations = 0
     for o in obs:
